@@ -400,7 +400,25 @@ def _run_evaluator(case, graph):
         if ev == "single":
             e = SingleEvaluator(broker, stream=buf, incremental=inc)
         else:
-            e = InsightsEvaluator(broker, system_id="SID-1", stream=buf, incremental=inc)
+            if case.get("bad_machine_id"):
+                # the machine-id spec is in the broker but reading it fails (an empty /etc/machine-id under a
+                # host context raises its content error lazily): the evaluator cannot learn the system id -
+                # the rules are accounted for all the same
+                from insights.specs import Specs
+                from insights.core.exceptions import ContentException
+
+                class _Unreadable(object):
+                    relative_path = "etc/machine-id"
+
+                    @property
+                    def content(self):
+                        raise ContentException("empty content: etc/machine-id")
+                broker[Specs.machine_id] = _Unreadable()
+                if case["bad_machine_id"] == "both":
+                    broker[Specs.redhat_release] = _Unreadable()
+                e = InsightsEvaluator(broker, stream=buf, incremental=inc)
+            else:
+                e = InsightsEvaluator(broker, system_id="SID-1", stream=buf, incremental=inc)
         return e.process(dict(graph)), broker, True
     missing = bool(case.get("missing"))
     show = list(case.get("show_rules") or [])
@@ -877,6 +895,8 @@ def _rule_set(draw, tier):
         if ev.endswith("-adapter"):
             case["fail_only"] = draw(st.booleans())
     case["shadows"] = draw(st.sampled_from([0, 0, 1, 2]))
+    if ev == "insights" and draw(st.booleans()):
+        case["bad_machine_id"] = draw(st.sampled_from(["machine_id", "both"]))
     return case
 
 
